@@ -138,6 +138,23 @@ StatViol(N, st) ==
              ELSE UNION {ColStatViol(N, st.p, c, st.cols[c], rows) : c \in 1..Len(st.cols)})
 C29Viol(N) == UNION {StatViol(N, N.stats[j]) : j \in 1..Len(N.stats)}
 
+\* answers derived from statistics alone equal answers computed from data: an aggregate query
+\*   SELECT count(*), count(c), min(c), max(c) FROM t [WHERE pred]
+\* (which the aggregate_statistics rewrite may answer from exact statistics without reading t) returns what
+\* Rel.tla's AggValue computes from the rows of t.   ev = [rows, col, pred, result]
+AggSel(ev) ==
+  SelectSeq(ev.rows, LAMBDA r :
+     CASE ev.pred = "none" -> TRUE
+       [] ev.pred = "gt0" -> ~IsNull(r[ev.col]) /\ r[ev.col].v > 0
+       [] ev.pred = "isnull" -> IsNull(r[ev.col])
+       [] ev.pred = "notnull" -> ~IsNull(r[ev.col]))
+AggExpected(ev) ==
+  LET sel == AggSel(ev)
+      vals == [i \in 1..Len(sel) |-> sel[i][ev.col]] IN
+  <<AggValue("countstar", FALSE, vals, Len(vals)), AggValue("count", FALSE, vals, Len(vals)),
+    AggValue("min", FALSE, vals, Len(vals)), AggValue("max", FALSE, vals, Len(vals))>>
+AggViol(ev) == {V(0, 0 - 1, "aggregate", k) : k \in {x \in 1..4 : ev.result[x] # AggExpected(ev)[x]}}
+
 (* ------------------------------ C53 ------------------------------ *)
 \* a node consumed in full (decided from the recorded End events) reports output_rows = rows emitted
 Emitted(N) == SeqSum([s \in Streams(N) |-> StreamCount(N.streams[s])])
